@@ -215,3 +215,61 @@ func VerifC02_DerivedTranscript() {
 	}
 	vReached("end")
 }
+
+// C02 (history): two session opens on one connection, same user name and suite. The BMC
+// holds one password throughout; the first open is made with it and succeeds, the second
+// is made with an arbitrary password: a session may come back only if that password is the
+// BMC's, and a different one must give ErrIncorrectPassword - nothing learnt or cached in
+// the first handshake may stand in for the caller's password in the second.
+func VerifC02_TwoHandshakes() {
+	ft := &vFakeTransport{}
+	s := vNewSessionless(ft)
+	auth, integ := vSuite()
+	username := vBytes([]int{0, 5}[vChoice(2)])
+	bmcPassword := vBytes(20)
+	var kg []byte
+	if vBool() {
+		kg = vBytes(20)
+	}
+	second := vBytes(20)
+	suites := []ipmi.CipherSuite{{AuthenticationAlgorithm: ipmi.AuthenticationAlgorithm(auth),
+		IntegrityAlgorithm: ipmi.IntegrityAlgorithm(integ), ConfidentialityAlgorithm: ipmi.ConfidentialityAlgorithmAESCBC128}}
+	for round := 0; round < 2; round++ {
+		bmc := &refBMC{password: bmcPassword, kg: kg, sidC: vU32(), rC: vBytes(16), guid: vBytes(16), useProposal: true}
+		ft.reply = func(attempt int, req []byte) ([]byte, error) {
+			r := bmc.handle(req)
+			if r == nil {
+				return nil, vErrLost
+			}
+			return r, nil
+		}
+		password := bmcPassword
+		if round == 1 {
+			password = second
+		}
+		ctx, cancel := context.WithCancel(context.Background())
+		sent := len(ft.sent)
+		ft2 := ft.reply
+		ft.reply = func(attempt int, req []byte) ([]byte, error) {
+			if len(ft.sent)-sent >= 3 {
+				cancel() // a refused RAKP 3 is not answered again
+			}
+			return ft2(attempt, req)
+		}
+		sess, err := s.NewV2Session(ctx, &V2SessionOpts{
+			SessionOpts: SessionOpts{Username: string(username), Password: append([]byte{}, password...), MaxPrivilegeLevel: ipmi.PrivilegeLevelAdministrator},
+			KG:          kg, CipherSuites: suites})
+		if round == 0 {
+			vAssert(err == nil && sess != nil, "c02-first-open-with-the-right-password-succeeds")
+			continue
+		}
+		if refBytesEq(second, bmcPassword) {
+			vReached("?same-password")
+		} else {
+			vAssert(err != nil && sess == nil, "c02-no-session-with-a-password-the-bmc-does-not-hold")
+			vAssert(err == ErrIncorrectPassword, "c02-wrong-password-is-reported-as-such")
+			vReached("?different-password")
+		}
+	}
+	vReached("end")
+}
